@@ -341,3 +341,131 @@ Definition raw_round (mds : list Z -> list Z) (ark1 ark2 : list (list Z)) (s : l
   raw_add_constants s (nth round ark2 []).
 Definition rp64_raw_permutation (s : list Z) : list Z := fold_left (raw_round mds12_multiply rp64_ARK1 rp64_ARK2) (seq 0 7) s.
 Definition jive_raw_permutation (s : list Z) : list Z := fold_left (raw_round mds8_multiply jive_ARK1 jive_ARK2) (seq 0 7) s.
+
+(* ------------------------------------------------------------------------------------------------
+   GENERIC level: the same sponge / Rp62_248 permutation code written once over abstract field operations
+   (`mul`, `add`, `newf` = BaseElement::new on a u64, `zero`, `one`).  Instantiated with the value-level operations
+   it is the model above (Proofs/RescueRawSponge.v: `*_generic_value`); instantiated with the rs2v-generated f64 / f62
+   operations on internal (Montgomery) words it is what the Rust code executes (RAW models at the end of this file). *)
+(* the u64 integers handed to BaseElement::new by Hasher::hash, before reduction (None = copy_from_slice panic) *)
+Fixpoint chunk_ints_of (cs : list (list Z)) : option (list Z) :=
+  match cs with
+  | [] => Some []
+  | [c] => Some [of_le_bytes (c ++ [1])]
+  | c :: r =>
+      if Nat.eqb (length c) 7
+      then match chunk_ints_of r with Some es => Some (of_le_bytes c :: es) | None => None end
+      else None
+  end.
+Definition chunk_ints (b : list Z) : option (list Z) := chunk_ints_of (chunks7 (length b) b).
+
+Section Generic.
+  Variable mul add : Z -> Z -> Z.
+  Variable newf : Z -> Z.
+  Variable zero one : Z.
+  Variable modulus : Z.            (* BaseElement::MODULUS (u64), used by merge_with_int only *)
+
+  (* --- Rp62_248 permutation pieces (plain code, no fast path) *)
+  Definition g_sq (a : Z) : Z := mul a a.
+  Fixpoint g_sqn (n : nat) (x : Z) : Z := match n with O => x | S k => g_sqn k (g_sq x) end.
+  Definition g_exp_acc (m : nat) (base tail : Z) : Z := mul (g_sqn m base) tail.
+  Definition g_cube (x : Z) : Z := mul (mul x x) x.
+  Definition g_inv_sbox62 (x : Z) : Z :=
+    let t1 := g_sq x in
+    let t2 := g_exp_acc 2 t1 t1 in
+    let t4 := g_exp_acc 4 t2 t2 in
+    let t8 := g_exp_acc 8 t4 t4 in
+    let acc := g_exp_acc 7 t8 t2 in
+    let acc := g_exp_acc 15 acc t8 in
+    let acc := g_exp_acc 16 acc t8 in
+    let acc := g_exp_acc 8 acc t4 in
+    mul x acc.
+  (* apply_mds of Rp62_248: result[i] = ZERO; for (s, m) in state.zip(MDS[i]) { result[i] += m * s } *)
+  Definition g_dot_loop (row s : list Z) : Z :=
+    fold_left (fun r ms => add r (mul (fst ms) (snd ms))) (combine row s) zero.
+  Definition g_apply_mds (mds : list (list Z)) (s : list Z) : list Z := map (fun row => g_dot_loop row s) mds.
+  Definition g_add_constants (s k : list Z) : list Z := map (fun ak => add (fst ak) (snd ak)) (combine s k).
+  (* the tables hold BaseElement::new(c) *)
+  Definition g_consts (t : list (list Z)) : list (list Z) := map (map newf) t.
+  Definition g_round62 (mds ark1 ark2 : list (list Z)) (s : list Z) (round : nat) : list Z :=
+    let s := map g_cube s in
+    let s := g_apply_mds (g_consts mds) s in
+    let s := g_add_constants s (nth round (g_consts ark1) []) in
+    let s := map g_inv_sbox62 s in
+    let s := g_apply_mds (g_consts mds) s in
+    g_add_constants s (nth round (g_consts ark2) []).
+  Definition g_permutation62 (mds ark1 ark2 : list (list Z)) (s : list Z) : list Z :=
+    fold_left (g_round62 mds ark1 ark2) (seq 0 7) s.
+
+  (* --- sponge *)
+  Definition g_zeros (n : nat) : list Z := repeat zero n.
+  Fixpoint g_absorb (S : Sponge) (st : list Z) (i : nat) (xs : list Z) : list Z * nat :=
+    match xs with
+    | [] => (st, i)
+    | x :: r =>
+        let st := upd (sp_rate_start S + i) (fun a => add a x) st in
+        let i := Datatypes.S i in
+        if Nat.eqb (i mod sp_rate_width S) 0 then g_absorb S (sp_perm S st) 0%nat r else g_absorb S st i r
+    end.
+  Definition g_hash_elements_cnt (S : Sponge) (xs : list Z) : list Z :=
+    let st0 := upd (sp_cap_idx S) (fun _ => newf (Z.of_nat (length xs))) (g_zeros (sp_width S)) in
+    let '(st, i) := g_absorb S st0 0%nat xs in
+    let st := if (0 <? i)%nat then sp_perm S st else st in
+    digest_of S st.
+  Definition g_jive_pad (S : Sponge) (st : list Z) (i : nat) : list Z :=
+    let st := upd (sp_rate_start S + i) (fun _ => one) st in
+    fold_left (fun st j => upd (sp_rate_start S + j) (fun _ => zero) st) (seq (Datatypes.S i) (sp_rate_width S - Datatypes.S i)) st.
+  Definition g_hash_elements_jive (S : Sponge) (xs : list Z) : list Z :=
+    let st0 := if Nat.eqb (length xs mod sp_rate_width S) 0 then g_zeros (sp_width S)
+               else upd (sp_cap_idx S) (fun _ => one) (g_zeros (sp_width S)) in
+    let '(st, i) := g_absorb S st0 0%nat xs in
+    let st := if (0 <? i)%nat then sp_perm S (g_jive_pad S st i) else st in
+    digest_of S st.
+  Definition g_hash_bytes_with (he : list Z -> list Z) (b : list Z) : option (list Z) :=
+    match chunk_ints b with Some l => Some (he (map newf l)) | None => None end.
+  Definition g_merge_state_cnt (S : Sponge) (a b : list Z) : list Z :=
+    upd (sp_cap_idx S) (fun _ => newf 8) (set_range (sp_rate_start S) (a ++ b) (g_zeros (sp_width S))).
+  Definition g_merge_cnt (S : Sponge) (a b : list Z) : list Z := digest_of S (sp_perm S (g_merge_state_cnt S a b)).
+  Definition g_mwi_state_cnt (S : Sponge) (seed : list Z) (v : Z) : list Z :=
+    let st := set_range (sp_rate_start S) seed (g_zeros (sp_width S)) in
+    let st := upd (sp_rate_start S + 4) (fun _ => newf v) st in
+    if v <? modulus then upd (sp_cap_idx S) (fun _ => newf 5) st
+    else upd (sp_cap_idx S) (fun _ => newf 6) (upd (sp_rate_start S + 5) (fun _ => newf (v / modulus)) st).
+  Definition g_merge_with_int_cnt (S : Sponge) (seed : list Z) (v : Z) : list Z :=
+    digest_of S (sp_perm S (g_mwi_state_cnt S seed v)).
+  Definition g_jive_sum (init final : list Z) : list Z :=
+    map (fun i => add (add (add (nth i init zero) (nth (4 + i) init zero)) (nth i final zero)) (nth (4 + i) final zero)) (seq 0 4).
+  Definition g_merge_jive (perm : list Z -> list Z) (a b : list Z) : list Z :=
+    let init := a ++ b in g_jive_sum init (perm init).
+  Definition g_mwi_state_jive (seed : list Z) (v : Z) : list Z :=
+    let st := set_range 0 seed (g_zeros 8) in
+    let st := upd 4 (fun _ => newf v) st in
+    if v <? modulus then upd 7 (fun _ => newf 5) st
+    else upd 7 (fun _ => newf 6) (upd 5 (fun _ => newf (v / modulus)) st).
+  Definition g_merge_with_int_jive (perm : list Z -> list Z) (seed : list Z) (v : Z) : list Z :=
+    let st := g_mwi_state_jive seed v in g_jive_sum st (perm st).
+End Generic.
+
+(* ------------------------------------------------------------------------------------------------ RAW hashers
+   what the Rust code executes on internal words (inputs: internal words of the elements; outputs: internal words of
+   the digest; `Digest::as_bytes` / equality go through as_int / normalisation). *)
+From VGen Require F62.
+Definition rp62_raw_permutation : list Z -> list Z :=
+  g_permutation62 F62.f62_mul F62.f62_add F62.f62_new F62.f62_ZERO rp62_MDS rp62_ARK1 rp62_ARK2.
+
+Definition rp64_raw_sponge : Sponge := mkSponge 12 4 8 0 4 rp64_raw_permutation.
+Definition rp62_raw_sponge : Sponge := mkSponge 12 0 8 11 0 rp62_raw_permutation.
+Definition jive_raw_sponge : Sponge := mkSponge 8 4 4 0 4 jive_raw_permutation.
+
+Definition rp64_raw_hash_elements (xs : list (list Z)) : list Z := g_hash_elements_cnt f64_add f64_new f64_ZERO rp64_raw_sponge (flatten xs).
+Definition rp62_raw_hash_elements (xs : list (list Z)) : list Z := g_hash_elements_cnt F62.f62_add F62.f62_new F62.f62_ZERO rp62_raw_sponge (flatten xs).
+Definition jive_raw_hash_elements (xs : list (list Z)) : list Z := g_hash_elements_jive f64_add f64_ZERO f64_ONE jive_raw_sponge (flatten xs).
+Definition rp64_raw_hash (b : list Z) : option (list Z) := g_hash_bytes_with f64_new (g_hash_elements_cnt f64_add f64_new f64_ZERO rp64_raw_sponge) b.
+Definition rp62_raw_hash (b : list Z) : option (list Z) := g_hash_bytes_with F62.f62_new (g_hash_elements_cnt F62.f62_add F62.f62_new F62.f62_ZERO rp62_raw_sponge) b.
+Definition jive_raw_hash (b : list Z) : option (list Z) := g_hash_bytes_with f64_new (g_hash_elements_jive f64_add f64_ZERO f64_ONE jive_raw_sponge) b.
+Definition rp64_raw_merge : list Z -> list Z -> list Z := g_merge_cnt f64_new f64_ZERO rp64_raw_sponge.
+Definition rp62_raw_merge : list Z -> list Z -> list Z := g_merge_cnt F62.f62_new F62.f62_ZERO rp62_raw_sponge.
+Definition jive_raw_merge : list Z -> list Z -> list Z := g_merge_jive f64_add f64_ZERO jive_raw_permutation.
+Definition rp64_raw_merge_with_int : list Z -> Z -> list Z := g_merge_with_int_cnt f64_new f64_ZERO M64 rp64_raw_sponge.
+Definition rp62_raw_merge_with_int : list Z -> Z -> list Z := g_merge_with_int_cnt F62.f62_new F62.f62_ZERO M62 rp62_raw_sponge.
+Definition jive_raw_merge_with_int : list Z -> Z -> list Z := g_merge_with_int_jive f64_add f64_new f64_ZERO M64 jive_raw_permutation.
